@@ -647,7 +647,7 @@ fn run_idl_rt(seed: u64, commented_variants: bool) -> Option<(String, String)> {
     let mut rng = Rng(seed.wrapping_mul(0x9E3779B97F4A7C15) | 1);
     let rng = &mut rng;
     let cm = |v: Vec<String>| v.into_iter().map(|c| Comment::new(leak(c))).collect::<Vec<_>>();
-    let depth = rng.below(3);
+    let depth = rng.below(5);
     let name = ["org.example.test", "a.b", "a-b.c-d", "x.1y", "io.systemd.v1"][rng.below(5)];
     let mut fields = |rng: &mut Rng, n: usize| (0..rng.below(n + 1)).map(|_| { let c = rt_comments(rng, 2); Field::new_owned(leak(g_field_name(rng)), rt_type(&g_ty(rng, depth, true)), c.into_iter().map(|c| Comment::new(leak(c))).collect()) }).collect::<Vec<_>>();
     let mut methods = vec![]; let mut types = vec![]; let mut errors = vec![];
